@@ -471,6 +471,8 @@ class SimNet:
                 x = bytes.fromhex(w["raw"])
             elif "whole" in w:
                 x = ans
+            elif "mut" in w:
+                x = mutate(rem, w["mut"])
             else:
                 raise HarnessError(f"frag_then what={w}")
             if x:
@@ -564,6 +566,15 @@ def mutate(data: bytes, ops) -> bytes:
         elif name == "add":  # add delta to byte at index (mod 256)
             if -len(b) <= op[1] < len(b):
                 b[op[1]] = (b[op[1]] + op[2]) & 0xFF
+        elif name == "xor":   # XOR a byte pattern (hex) at index
+            pat = bytes.fromhex(op[2])
+            for j, x in enumerate(pat):
+                if 0 <= op[1] + j < len(b):
+                    b[op[1] + j] ^= x
+        elif name == "swap":
+            i, j = op[1], op[2]
+            if 0 <= i < len(b) and 0 <= j < len(b):
+                b[i], b[j] = b[j], b[i]
         elif name == "prepend":
             b = bytearray(bytes.fromhex(op[1])) + b
         elif name == "fixcrc_rtu":   # recompute the RTU CRC (frame = AA55 + rtu + crc) after other edits
